@@ -10,6 +10,7 @@ package server
 import (
 	"errors"
 	"fmt"
+	"runtime"
 	"sync"
 	"time"
 
@@ -57,6 +58,12 @@ type vfEnv struct {
 	hookFail int                        // the next n Hook() calls fail
 	sendFail int                        // the next n SendMessage() calls fail
 	slowClose int                       // the next n logger.Close() calls take 10 ms (a slow event logger)
+	slowDial  int64                     // the next UDP() call blocks this many ms of the fake clock (a slow outbound dial)
+	slowHook  int64                     // the next Hook() call blocks this many ms of the fake clock (sniffing, DNS)
+	timeoutMs int64                     // idle timeout of the manager under test; 0: unknown, slow dials are not simulated
+	curRecvT  int64                     // fake-clock ms at which ReceiveMessage returned the message being fed
+	pauser    *vfPauser                 // real-time pause (nil: none)
+	overlaps  int                       // slow dials that were still in progress at the sweep that selects their entry
 	curSid   uint32                     // session id of the message the receive loop is feeding
 	lastNew  uint32                     // session id of the last logger.New (owner of the next socket)
 	socks    []*vfConn
@@ -115,6 +122,7 @@ func (e *vfEnv) ReceiveMessage() (*protocol.UDPMessage, error) {
 		return nil, r.err
 	}
 	e.curSid = r.msg.SessionID
+	e.curRecvT = int64(time.Since(e.t0) / time.Millisecond)
 	e.add(vfEv{K: "recv", Sid: r.msg.SessionID, Ok: r.msg.FragCount <= 1, A: r.msg.Addr, Tag: vfTag(r.msg.Data)})
 	return r.msg, nil
 }
@@ -138,6 +146,11 @@ func (e *vfEnv) SendMessage(buf []byte, m *protocol.UDPMessage) error {
 
 func (e *vfEnv) Hook(data []byte, reqAddr *string) error {
 	e.mu.Lock()
+	ms := e.slowHook
+	e.slowHook = 0
+	e.mu.Unlock()
+	e.slowBlock(ms)
+	e.mu.Lock()
 	defer e.mu.Unlock()
 	if e.hookFail > 0 {
 		e.hookFail--
@@ -155,6 +168,11 @@ func (e *vfEnv) Hook(data []byte, reqAddr *string) error {
 }
 
 func (e *vfEnv) UDP(reqAddr string) (UDPConn, error) {
+	e.mu.Lock()
+	ms := e.slowDial
+	e.slowDial = 0
+	e.mu.Unlock()
+	e.slowBlock(ms)
 	e.mu.Lock()
 	defer e.mu.Unlock()
 	if e.dialFail > 0 {
@@ -183,6 +201,92 @@ func (e *vfEnv) CheckUDP(reqAddr string) error {
 	return nil
 }
 
+// ---- slow request hook / slow outbound dial
+//
+// slowBlock is called by the receive loop from inside DialFunc (Hook or UDP()): the call takes ms of the fake
+// clock, so sweeps, reply loops and the driver run while the first dial of a session is still in progress; the
+// "hook" / "dial" record is logged when the call returns.
+//
+// udp.go holds the entry's connLock across DialFunc, and a goroutine blocked on a sync.Mutex is NOT durably
+// blocked for testing/synctest: once a sweep has selected the entry being dialed and waits for its connLock, the
+// bubble's clock cannot advance before the dial returns.  The entry's Last was stored when its datagram was
+// received (curRecvT; nothing refreshes it during the dial), so the first sweep that can select it is the first
+// tick T* with T* - curRecvT > timeout.  The sleep is therefore cut at T*; a dial that would last longer is then
+// kept in progress for a moment of REAL time (the sweeper woken at the same fake instant takes its snapshot and
+// calls CloseWithErr on the entry while the dial has not returned yet) and returns at fake time T*.
+func (e *vfEnv) slowBlock(ms int64) {
+	if ms <= 0 || e.timeoutMs <= 0 {
+		return
+	}
+	iv := int64(idleCleanupInterval / time.Millisecond)
+	e.mu.Lock()
+	now := int64(time.Since(e.t0) / time.Millisecond)
+	tstar := ((e.curRecvT+e.timeoutMs)/iv + 1) * iv
+	sid := e.curSid
+	m0 := len(e.log)
+	e.mu.Unlock()
+	end, overlap := now+ms, false
+	if end >= tstar {
+		end, overlap = tstar, true
+	}
+	if end > now {
+		time.Sleep(time.Duration(end-now) * time.Millisecond)
+	}
+	if !overlap {
+		return
+	}
+	e.mu.Lock()
+	e.overlaps++
+	e.mu.Unlock()
+	for i := 0; i < 8; i++ {
+		if e.pauser != nil {
+			e.pauser.pause()
+		} else {
+			for j := 0; j < 200; j++ {
+				runtime.Gosched()
+			}
+		}
+		// the sweep's effect is already visible (possible only if connLock is not held across the dial)
+		seen := false
+		e.mu.Lock()
+		for _, ev := range e.log[m0:] {
+			if ev.K == "logclose" && ev.Sid == sid {
+				seen = true
+			}
+		}
+		e.mu.Unlock()
+		if seen {
+			return
+		}
+	}
+}
+
+// vfPauser blocks the caller for a short REAL time: the request is served by a goroutine outside the synctest
+// bubble over channels made outside the bubble (blocking on those is not durable, so the fake clock stands still).
+type vfPauser struct {
+	req, ack chan struct{}
+	d        time.Duration
+}
+
+// must be called outside any synctest bubble
+func newVFPauser(d time.Duration) *vfPauser {
+	p := &vfPauser{req: make(chan struct{}), ack: make(chan struct{}), d: d}
+	go func() {
+		for range p.req {
+			time.Sleep(p.d)
+			p.ack <- struct{}{}
+		}
+	}()
+	return p
+}
+
+func (p *vfPauser) pause() {
+	p.req <- struct{}{}
+	<-p.ack
+}
+
+func (p *vfPauser) stop() { close(p.req) }
+
 // ---- udpEventLogger
 
 type vfLogger struct{ env *vfEnv }
@@ -196,11 +300,13 @@ func (l vfLogger) New(sessionID uint32, reqAddr string) {
 
 func (l vfLogger) Close(sessionID uint32, err error) {
 	l.env.mu.Lock()
-	l.env.add(vfEv{K: "logclose", Sid: sessionID, Ok: err == nil})
 	slow := l.env.slowClose > 0
+	a := ""
 	if slow {
 		l.env.slowClose--
+		a = "slow"
 	}
+	l.env.add(vfEv{K: "logclose", Sid: sessionID, Ok: err == nil, A: a})
 	l.env.mu.Unlock()
 	if slow {
 		// the caller is between part 1 of CloseWithErr (closed flag set, socket closed) and the table delete
@@ -282,7 +388,14 @@ func (c *vfConn) Close() error {
 func (e *vfEnv) quiet() {
 	e.mu.Lock()
 	defer e.mu.Unlock()
-	e.add(vfEv{K: "quiet"})
+	e.add(vfEv{K: "quiet", Sock: -1})
+}
+
+// quietCount: the same, with the size of the session table sampled at that moment
+func (e *vfEnv) quietCount(n int) {
+	e.mu.Lock()
+	defer e.mu.Unlock()
+	e.add(vfEv{K: "quiet", Sock: n})
 }
 
 func (e *vfEnv) String() string { return fmt.Sprintf("vfEnv(%d events)", len(e.log)) }
